@@ -20,7 +20,7 @@ The following semantic property of the code base is supposed to hold:
 
 Your task: write ONE realistic change to the golang/net source (non-test .go files only) that BREAKS this property while the code still compiles and the package's existing test suite still passes unchanged (`go test -count=1` in the affected package directory — and in http2 / quic / other dependants if you touch shared code). The change should look like a plausible bug a developer could introduce (an off-by-one at a boundary, a missing update on a rare path, a wrong variable, a dropped wake-up, an early return, two sites that are each fine alone), NOT sabotage that ordinary use would expose at once: it must need something specific to manifest — a particular interleaving, a fault at a particular point, a multi-step sequence of operations, an unusual input or boundary value. Keep the diff small (ideally < 15 changed lines). {('Variant hint: ' + sys.argv[3]) if len(sys.argv) > 3 else ''}
 
-Also write a demonstration: a Go test file (put it in the affected package directory of the worktree, name it zz_seed_demo_test.go; copy the build constraints used by the package's other _test.go files; you may use the package's own test helpers) with one test `TestSeedDemo` that FAILS with your change applied and PASSES on the unchanged code. Verify both yourself (use `git stash` / `git stash pop` or apply the diff in reverse inside your worktree).
+Also write a demonstration: a Go test file (put it in the affected package directory of the worktree, name it zz_seed_demo_test.go; copy the build constraints used by the package's other _test.go files; you may use the package's own test helpers) with one test `TestSeedDemo` that FAILS with your change applied and PASSES on the unchanged code. Verify both yourself (save your change with `git diff > _seed/patch.diff` and use `git apply -R` / `git apply`; do NOT use `git stash`: the stash is shared by all worktrees of /repo).
 
 Deliver, all inside {wt}/_seed/ :
   patch.diff   — `git diff` of the source change only (not the demo test), applicable with `git apply` at the repository root
